@@ -176,7 +176,7 @@ package plush
 //@ requires node != nil
 //@ requires cctx: cctx(c)
 //@ ensures restored: c.ctx == old(c.ctx) && (c.curStmt == nil || pay(c.curStmt) != 0)
-//@ errprop tolerate is(e, "*ErrUnknownIdentifier")
+//@ errprop tolerate is(e, "*ErrUnknownIdentifier") && is(eiNode.Condition, "*ast.Identifier")
 //@ assigns c.ctx, c.curStmt, mapsof("map[string]interface{}"), fresh
 //@ loop 1: invariant cctx(c) && c.ctx == old(c.ctx)
 
